@@ -166,4 +166,10 @@ theorem C12_add_signal_skeleton :
       ["lock", "tolerant", "check.registered", "return.ok", "register", "record"] := by decide
 
 
+/-- **C12.drop_skeleton** — tie to the source (regenerated): dropping the state shared by an instance and its
+handles takes the ids lock (tolerating poison) and unregisters *every* recorded id - no condition, no early
+return (not "unless the thread is panicking", not "unless the lock is poisoned"): the model's `dropInst`. -/
+theorem C12_drop_skeleton :
+    skelOf "src/iterator/backend.rs" "drop@registered_signal_ids" = ["lock", "tolerant", "all.ids", "unregister"] := by decide
+
 end SigHook.Entry
